@@ -105,13 +105,13 @@ theorem rank_cases {res a : GLWE} (h : (res.rank == a.rank || a.rank == 0) = tru
   simp at h; omega
 
 /-- `glwe_copy` -/
-theorem copy_ok {N : Nat} {res a : GLWE} (hr : GWF N res) (ha : GWF N a)
+theorem copy_ok {N : Nat} {res a : GLWE} (hr : GWF N res) (ha : GWF N a) (hb : res.base2k = a.base2k)
     (hrank : (res.rank == a.rank || a.rank == 0) = true) :
     ∃ r', glweCopy N res a = .ok r' ∧ Same res r' ∧ GWF N r' ∧ r'.size = res.size ∧
       ∀ s, phase s r' = fit N res.size (phase s a) := by
   have hrk := rank_cases hrank
   unfold glweCopy
-  rw [check_true _ _ (beq_true hr.1), check_true _ _ (beq_true ha.1), check_true _ _ hrank]
+  rw [check_true _ _ (beq_true hr.1), check_true _ _ (beq_true ha.1), check_true _ _ (beq_true hb), check_true _ _ hrank]
   have e : min res.rank a.rank + 1 = a.rank + 1 := by omega
   simp only [e]
   obtain ⟨r', h1, h2, h3, h4, h5⟩ := unary_loops (linT_id N) (vecCopy N res.size) hr ha hrk
@@ -120,12 +120,12 @@ theorem copy_ok {N : Nat} {res a : GLWE} (hr : GWF N res) (ha : GWF N a)
 
 /-- `glwe_rotate` -/
 theorem rotate_ok {N : Nat} (k : Int) {res a : GLWE} (hr : GWF N res) (ha : GWF N a) (sa : GSmall a)
-    (hrank : (res.rank == a.rank || a.rank == 0) = true) :
+    (hb : res.base2k = a.base2k) (hrank : (res.rank == a.rank || a.rank == 0) = true) :
     ∃ r', glweRotate N k res a = .ok r' ∧ Same res r' ∧ GWF N r' ∧ r'.size = res.size ∧
       ∀ s, phase s r' = (fit N res.size (phase s a)).map (rotP k) := by
   have hrk := rank_cases hrank
   unfold glweRotate
-  rw [check_true _ _ (beq_true ha.1), check_true _ _ (beq_true hr.1), check_true _ _ hrank]
+  rw [check_true _ _ (beq_true ha.1), check_true _ _ (beq_true hr.1), check_true _ _ (beq_true hb), check_true _ _ hrank]
   exact unary_loops (linT_rot N k) (vecRotate k N res.size) hr ha hrk (fun i _ => vecRotate_nf k _ _ (sa.col i))
 
 /-- shared proof of `for i in 0..res.rank+1 { res_i = K(a_i) }` with equal ranks -/
@@ -146,20 +146,23 @@ theorem unary_loop_eq {N : Nat} {T : Poly → Poly} (hT : LinT N T) (K : Col →
   exact ⟨r1, e1, s1, w, sz, ph⟩
 
 /-- `glwe_negate` -/
-theorem negate_ok {N : Nat} {res a : GLWE} (hr : GWF N res) (ha : GWF N a) (sa : GSmall a) (hrank : a.rank = res.rank) :
+theorem negate_ok {N : Nat} {res a : GLWE} (hr : GWF N res) (ha : GWF N a) (sa : GSmall a)
+    (hb : res.base2k = a.base2k) (hrank : a.rank = res.rank) :
     ∃ r', glweNegate N res a = .ok r' ∧ Same res r' ∧ GWF N r' ∧ r'.size = res.size ∧
       ∀ s, phase s r' = (fit N res.size (phase s a)).map polyNeg := by
   unfold glweNegate
-  rw [check_true _ _ (beq_true ha.1), check_true _ _ (beq_true hr.1), check_true _ _ (beq_true hrank)]
+  rw [check_true _ _ (beq_true ha.1), check_true _ _ (beq_true hr.1), check_true _ _ (beq_true hb),
+    check_true _ _ (beq_true hrank)]
   exact unary_loop_eq (linT_neg N) (vecNegate N res.size) hr ha hrank (fun i _ => vecNegate_nf _ _ (sa.col i))
 
 /-- `glwe_mul_xp_minus_one` -/
 theorem mulXpMinusOne_ok {N : Nat} (k : Int) {res a : GLWE} (hr : GWF N res) (ha : GWF N a) (sa : GSmall a)
-    (hrank : res.rank = a.rank) :
+    (hb : res.base2k = a.base2k) (hrank : res.rank = a.rank) :
     ∃ r', glweMulXpMinusOne N k res a = .ok r' ∧ Same res r' ∧ GWF N r' ∧ r'.size = res.size ∧
       ∀ s, phase s r' = (fit N res.size (phase s a)).map (mxpP k) := by
   unfold glweMulXpMinusOne
-  rw [check_true _ _ (beq_true hr.1), check_true _ _ (beq_true ha.1), check_true _ _ (beq_true hrank)]
+  rw [check_true _ _ (beq_true hr.1), check_true _ _ (beq_true ha.1), check_true _ _ (beq_true hb),
+    check_true _ _ (beq_true hrank)]
   exact unary_loop_eq (linT_mxp N k) (vecMulXpMinusOne k N res.size) hr ha hrank.symm
     (fun i _ => vecMulXpMinusOne_nf k _ _ (ha.col_limbs i) (sa.col i))
 
